@@ -77,6 +77,24 @@ pub fn life(quick: bool) -> Vec<Scenario> {
         ),
         Scenario::new("life-launchfail", vec![w(1)], vec![vec![sub(arr(&[0, 1], 1))]]).launch_fail(1, 0, 1),
     ];
+    // two jobs with different priorities compete for one worker
+    v.push(
+        Scenario::new(
+            "life-two-prios",
+            vec![w(2)],
+            vec![vec![sub(arr(&[0, 1], 1))], vec![sub(arr(&[0, 1], 2).prio(3))]],
+        )
+        .budgets(0, 1, 0, 1),
+    );
+    // worker with a limited lifetime: one task fits into it, one never does
+    v.push(Scenario::new(
+        "life-worker-lifetime",
+        vec![w(1).time_limit(100)],
+        vec![vec![
+            sub(SubmitSpec::array(&[0], RqSpec::cpus(1).min_time(50))),
+            sub(SubmitSpec::array(&[0], RqSpec::cpus(1).min_time(200))),
+        ]],
+    ));
     if !quick {
         v.push(
             Scenario::new("life-3t-2w-kill-err", vec![w(1), w(1)], vec![vec![sub(arr(&[0, 1, 2], 1))]])
@@ -261,6 +279,27 @@ pub fn redirect(quick: bool) -> Vec<Scenario> {
             .budgets(0, 0, 1, 1)
             .launch_fail(1, 1, 1)
             .launch_fail(1, 2, 1),
+        );
+        // a retracting task is re-placed while its first redirect is pending (3 workers)
+        v.push(
+            Scenario::new(
+                "redirect-3w",
+                vec![w(1), w(1).spare(), w(1).spare()],
+                vec![vec![sub(arr(&[0, 1, 2, 3], 1))]],
+            )
+            .prefill(1, 1)
+            .budgets(0, 0, 2, 2)
+            .cap(400_000),
+        );
+        v.push(
+            Scenario::new(
+                "prefill2-kill",
+                vec![w(1), w(1).spare()],
+                vec![vec![sub(arr(&[0, 1, 2, 3], 1))]],
+            )
+            .prefill(0, 2)
+            .budgets(1, 0, 1, 2)
+            .cap(400_000),
         );
         // two request classes on one 2-cpu worker with prefill (Appendix A #22)
         v.push(
@@ -560,6 +599,7 @@ pub fn wait(_quick: bool) -> Vec<Scenario> {
 }
 
 pub fn misc(quick: bool) -> Vec<Scenario> {
+    #[allow(unused_mut)]
     let mut v = vec![
         // streaming task: stop receiver dropped during the final flush (Appendix A #23)
         Scenario::new(
@@ -587,7 +627,25 @@ pub fn misc(quick: bool) -> Vec<Scenario> {
             ],
         ),
     ];
+    // `hq worker stop`: the worker is told to stop while it holds running / queued tasks
+    v.push(
+        Scenario::new(
+            "stop-worker",
+            vec![w(1), w(1).spare()],
+            vec![vec![sub(arr(&[0, 1], 1).crash_limit("1"))], vec![Req::StopWorker(1), Req::WorkerInfo(1)]],
+        )
+        .budgets(0, 0, 1, 1),
+    );
     if !quick {
+        v.push(
+            Scenario::new(
+                "stop-worker-prefill",
+                vec![w(1), w(1).spare()],
+                vec![vec![sub(arr(&[0, 1, 2], 1))], vec![Req::StopWorker(1)]],
+            )
+            .prefill(1, 1)
+            .budgets(0, 0, 1, 1),
+        );
         v.push(Scenario::new(
             "stream-timelimit",
             vec![w(1)],
